@@ -13,6 +13,7 @@ import Driver.CartesianCmd
 import Driver.WiresCmd
 import Driver.ReprCmd
 import Driver.PyzxCmd
+import Driver.LayoutCmd
 
 def handlers : List (String → List String → Option String) :=
   [ DV.CoreCmd.handle
@@ -22,6 +23,7 @@ def handlers : List (String → List String → Option String) :=
   , DV.WiresCmd.handle
   , DV.ReprCmd.handle
   , DV.PyzxCmd.handle
+  , DV.LayoutCmd.handle
   ]
 
 def handle (line : String) : String :=
